@@ -71,7 +71,22 @@ void vp_tags_init (void);
 void vp_reg_clear (void);
 int vp_condition (const void *arg);   /* the client's condition: arbitrary result; C06: only ever called with the mutex held */
 extern waiter vp_my_w; /* this thread's own (reserved) waiter record */
-extern waiter vp_fw;   /* the abstract queue's foreign waiter record (arbitrary contents) */
+extern waiter vp_fw;
+void vp_fw_init (void);
+/* the fields of the foreign record that the abstract queue re-havocs */
+#define VP_FW_DATA vp_fw.nw.waiting, vp_fw.nw.flags, vp_fw.remove_count, vp_fw.cv_mu, vp_fw.flags, vp_fw.l_type, vp_fw.cond.f   /* the abstract queue's foreign waiter record (arbitrary contents) */
+
+/* waker-side ghost (VP_RG_WAKER) */
+#define VP_WK_MAX 4
+struct vp_waker_ghost {
+	struct nsync_waiter_s *rec[VP_WK_MAX];   /* harness-registered foreign waiter records */
+	unsigned cleared;       /* waiting flags this thread cleared */
+	unsigned posted;        /* semaphores this thread posted */
+	int pending;            /* a flag was cleared and its semaphore not yet posted */
+	nsync_atomic_uint32_ *last_cleared;
+	const void *lock;       /* C13: the lock the waiter's dequeue takes; must be held across clear+post (NULL: none required) */
+};
+extern struct vp_waker_ghost vp_wk;
 
 /* projection of the global invariant J on this thread's ghost */
 int vp_mu_inv_me (uint32_t w);
